@@ -11,6 +11,23 @@ POIS_MENU = (0, 1, 2, 7)          # 7 overshoots every limit used in the small c
 TIE_EPS = 1.0e-9
 
 
+def _near_mean(lam):
+    return round(lam)
+
+
+def _above_mean(lam):
+    return round(lam) + int(3 * lam ** 0.5) + 1
+
+
+def _overshoot(lam):
+    return 10 ** 7
+
+
+# answers for configurations with hundreds of individuals, where a leap moves many individuals at once: the rounded
+# mean (default), none, a +3 sigma count, and a count beyond every population (the refused-step path)
+POIS_MENU_REL = (_near_mean, 0, _above_mean, _overshoot)
+
+
 class HorizonExceeded(Exception):
     pass
 
@@ -65,6 +82,8 @@ class Sched:
             else:
                 k = self.choose(len(self.pois_menu))
                 v = self.pois_menu[k]
+                if callable(v):
+                    v = int(v(lamf))       # an answer stated relative to the requested mean (large populations)
             self.log.append(("pois", lamf, v))
             out.append(v)
         return out[0] if size is None else np.array(out).reshape(size)
